@@ -37,6 +37,8 @@ const XMLNS = "http://www.w3.org/XML/1998/namespace"
 // Parse reads one document strictly: well-formed per encoding/xml, every prefix
 // declared, no duplicate attributes (by raw name and by expanded name), a single root.
 func Parse(b []byte) (*Node, error) {
+	// a UTF-8 byte order mark may precede the document (XML 1.0 4.3.3)
+	b = bytes.TrimPrefix(b, []byte("\xef\xbb\xbf"))
 	d := xml.NewDecoder(bytes.NewReader(b))
 	d.Strict = true
 	type scope map[string]string
